@@ -328,10 +328,16 @@ pub(crate) fn value_cmp(lhs: &dyn ValueView, rhs: &dyn ValueView) -> Option<Orde
     }
 
     if let (Some(x), Some(y)) = (lhs.as_object(), rhs.as_object()) {
+        // Objects have no inherent iteration order: compare their entries sorted by
+        // key so the outcome depends only on the contents.
+        let mut x: Vec<_> = x.iter().collect();
+        x.sort_by(|a, b| a.0.cmp(&b.0));
+        let mut y: Vec<_> = y.iter().collect();
+        y.sort_by(|a, b| a.0.cmp(&b.0));
         return x
-            .iter()
+            .into_iter()
             .map(|(k, v)| (k, ValueViewCmp(v)))
-            .partial_cmp(y.iter().map(|(k, v)| (k, ValueViewCmp(v))));
+            .partial_cmp(y.into_iter().map(|(k, v)| (k, ValueViewCmp(v))));
     }
 
     None
